@@ -1,7 +1,7 @@
 """C19 — base64url and integer codecs are strict and lossless."""
 import itertools, json
 import lib
-from lib import c_hex, c_Z, c_N, c_exn, exn_class
+from lib import c_hex, c_Z, c_N, c_exn, exn_class, c_pv, c_str, c_opt
 
 ALPHA = b"ABCDEFGHIJKLMNOPQRSTUVWXYZabcdefghijklmnopqrstuvwxyz0123456789-_"
 
@@ -132,6 +132,71 @@ def gen_headers(ctx):
     return out
 
 
+def has_float(v):
+    if isinstance(v, float):
+        return True
+    if isinstance(v, list):
+        return any(has_float(x) for x in v)
+    if isinstance(v, dict):
+        return any(has_float(x) for x in v.values())
+    return False
+
+
+def gen_json_values(ctx):
+    """float-free JSON values, strings over all escape classes"""
+    rng = ctx.rng
+    chars = ['a', 'Z', '0', ' ', '~', '"', '\\', '/', '\n', '\r', '\t', '\b', '\f', '\x00', '\x1f', '\x7f',
+             '\x80', '\xe9', '\u07ff', '\u0800', '\ud7ff', '\ue000', '\uffff', '\U00010000', '\U0001F600',
+             '\U0010ffff', '<', '&', '\u2028']
+
+    def rstr():
+        return "".join(rng.choice(chars) for _ in range(rng.choice([0, 1, 1, 2, 3, 5, 9])))
+
+    def val(d):
+        k = rng.randrange(7 if d < 4 else 4)
+        if k == 0:
+            return rstr()
+        if k == 1:
+            return rng.choice([0, 1, -1, 7, 10, 99, 100, -100, 2 ** 31, 2 ** 64, -2 ** 70, 10 ** 30, rng.getrandbits(rng.randrange(1, 200))])
+        if k == 2:
+            return rng.choice([True, False])
+        if k == 3:
+            return None
+        if k == 4:
+            return [val(d + 1) for _ in range(rng.randrange(0, 4))]
+        return {rstr(): val(d + 1) for _ in range(rng.randrange(0, 4))}
+    out = [c for c in chars] + ["".join(chars)]
+    for _ in range(ctx.scale(500, 8000)):
+        out.append(val(0))
+    return out
+
+
+def gen_json_texts(ctx):
+    """texts for json.loads: re-spellings of valid documents and malformed ones"""
+    import json as _json
+    rng = ctx.rng
+    out = ['', ' ', 'null', ' true ', 'false', 'nul', 'tru', 'True', '0', '-0', '01', '-', '-01', '1 2', '12', '-12',
+           '[]', '[ ]', '[1,]', '[,1]', '[1 2]', '[1,2', '{}', '{ }', '{"a":1,}', '{"a" 1}', '{a:1}', "{'a':1}",
+           '{"a":1 "b":2}', '{"a":1,"a":2}', '{"a":1,"b":2,"a":3}', '"', '"a', '"\\', '"\\x"', '"\\u12"', '"\\u12g4"',
+           '"\\u00E9"', '"\\u00e9"', '"\\ud83d\\ude00"', '"\\ud83d"', '"\\ud83dx"', '"\\ud83d\\u0041"', '"\\ude00"',
+           '"\\ud83d\\ud83d\\ude00"', '"\\/"', '"\x01"', '"\x1f"', '"\x7f"', '"\t"', '"\u00e9"', '"\U0001F600"',
+           '\ufeff{}', '[[[[[[[[[[1]]]]]]]]]]', '{"a":{"b":{"c":[{"d":null}]}}}', '[1]x', 'x[1]', '[1]\n', '\n[1]',
+           '\x0b[1]', '[1]\x0c', '[\n1\t,\r2 ]', '{"a"\n:\n1}', '"a" "b"', '[true,false,null]', '[truefalse]',
+           '-[1]', '[-]', '[+1]', '+1', '0x10', '1_0', '٣', '[1,2,3,4,5,6,7,8,9,10,11,12]']
+    docs = [v for v in gen_json_values(ctx)[:ctx.scale(150, 1500)]]
+    for v in docs:
+        try:
+            t = _json.dumps(v, ensure_ascii=rng.random() < 0.5, separators=rng.choice([(",", ":"), (", ", ": "), (" ,\n", " :\t")]),
+                            indent=rng.choice([None, None, 1]))
+        except ValueError:
+            continue
+        out.append(t)
+        if t and rng.random() < 0.5:      # one random edit -> mostly malformed
+            i = rng.randrange(len(t))
+            out.append(t[:i] + rng.choice(['', '"', '\\', ',', ':', ']', '}', '[', '{', '0', ' ', 'u', 'e']) + t[i + rng.randrange(2):])
+    return out
+
+
 def run(ctx):
     from joserfc import util
     from joserfc.rfc7518 import util as util2
@@ -246,6 +311,48 @@ def run(ctx):
             if any(ch not in ALPHA for ch in seg):
                 ctx.violation({"kind": "b64-alphabet"}, "json_b64encode output outside the alphabet", {"header": repr(h)})
 
+    # ---- Gallina JSON printer / parser vs the json module (float-free values)
+    import json as _json
+    dist.update({"jdump": 0, "jload_ok": 0, "jload_err": 0, "jb64": 0})
+    for v in gen_json_values(ctx):
+        try:
+            t = _json.dumps(v, ensure_ascii=True, separators=(",", ":"))
+        except ValueError:
+            continue
+        ctx.note_case(("jdump", t))
+        dist["jdump"] += 1
+        add("CJDump %s %s" % (c_pv(v), c_str(t)), ("jdump", t))
+        try:
+            surrogate = any(0xD800 <= ord(ch) <= 0xDFFF for ch in t)
+            back = _json.loads(t)
+        except ValueError as e:
+            ctx.violation({"kind": "json-roundtrip"}, "json.loads(json.dumps(v)) raised for v=%r" % (v,), {"fn": "json roundtrip", "value": repr(v)})
+            continue
+        if back != v:
+            ctx.violation({"kind": "json-roundtrip"}, "json.loads(json.dumps(v)) != v for v=%r" % (v,), {"fn": "json roundtrip", "value": repr(v)})
+        if isinstance(v, dict):
+            seg = call(util.json_b64encode, v)
+            dist["jb64"] += 1
+            if seg[0] == "ok":
+                add("CJB64 %s %s" % (c_pv(v), c_hex(seg[1])), ("jb64", t))
+                d = call(util.json_b64decode, seg[1])
+                if d[0] != "ok" or d[1] != v:
+                    ctx.violation({"kind": "json-roundtrip"}, "json_b64decode(json_b64encode(h)) != h for h=%r" % (v,), {"fn": "json roundtrip", "header": repr(v)})
+            else:
+                ctx.violation({"kind": "json-roundtrip"}, "json_b64encode raised %r for h=%r" % (seg[1], v), {"fn": "json roundtrip", "header": repr(v)})
+    for t in gen_json_texts(ctx):
+        try:
+            r = ("ok", _json.loads(t))
+        except ValueError:
+            r = ("err", None)
+        except RecursionError:
+            continue
+        if r[0] == "ok" and has_float(r[1]):
+            continue                       # floats are outside the modelled fragment
+        ctx.note_case(("jload", t))
+        dist["jload_ok" if r[0] == "ok" else "jload_err"] += 1
+        add("CJLoad %s %s" % (c_str(t), ("(Some %s)" % c_pv(r[1])) if r[0] == "ok" else "None"), ("jload", t))
+
     ctx.coverage["input_distribution"] = dist
     ctx.sample({"fn": "urlsafe_b64decode", "arg": "QUJD=", "impl": repr(call(util.urlsafe_b64decode, b"QUJD="))})
     ctx.sample({"fn": "urlsafe_b64decode", "arg": "QQ===", "impl": repr(call(util.urlsafe_b64decode, b"QQ==="))})
@@ -253,7 +360,7 @@ def run(ctx):
     ctx.sample({"coq_case": cases[300][:120]})
 
     # ---- correspondence: model (vm_compute) vs recorded implementation behaviour
-    ev = lib.CoqEval(["From Model Require Import Base B64 IntCodec C19Cases."], "c19case", "c19_check", "c19_show")
+    ev = lib.CoqEval(["From Model Require Import Base B64 IntCodec PyVal Json C19Cases."], "c19case", "c19_check", "c19_show")
     res = ev.run(cases)
     ctx.coverage["traces_validated_against_impl"] = res["evaluated"]
     ctx.coverage["disagreements_checked"] = len(res["failing"])
@@ -272,7 +379,7 @@ def run(ctx):
                        "broken": "theorems of props/C19.v"})
     ctx.assumptions += [
         "CPython binascii.a2b_base64(strict_mode=True)/b2a_base64 are transcribed by hand in model/B64.v; the transcription is validated by the differential run only",
-        "json.dumps/json.loads are not modelled here: the JSON header round trip is checked on the implementation directly",
+        "json.dumps(ensure_ascii=True, separators=(',',':')) and json.loads are transcribed in model/Json.v for float-free values (round trip proved in proofs/JsonProofs.v); floats, NaN/Infinity and UTF-8/16/32 detection of byte input are not modelled (checked on the implementation only)",
     ]
     if not ctx.quick:
         ctx.coqchk()
